@@ -713,7 +713,7 @@ Theorem rcpt_reply_sound db fs vb domain local :
   | RError e => 0 < e /\ io_error fs vb l
   end.
 Proof.
-  cbv zeta. intros DF. unfold addrparse_rcpt. cbn [fst].
+  cbv zeta. intros DF. unfold addrparse_rcpt, reply_of. cbn [fst].
   pose proof (user_exists_sound db fs vb _ (map to_lower local) DF) as [A [B C]]. cbv zeta in A, B, C.
   set (z := rc (user_exists db fs vb (map to_lower domain) (map to_lower local))) in *.
   destruct (z <? 0) eqn:L.
@@ -750,7 +750,7 @@ Theorem model_passes_rcpt_checker db lay vbfile domain local :
   spec_ok_C13_rcpt db lay vbfile domain local (fst (rcpt_obs (fst ro))) (snd (rcpt_obs (fst ro)))
     (conf_of (snd ro)) (probes (snd ro)) = true.
 Proof.
-  cbv zeta. unfold addrparse_rcpt. cbn [fst snd].
+  cbv zeta. unfold addrparse_rcpt, reply_of. cbn [fst snd].
   set (fs := fs_of_layout lay). set (vb := vpopbounce_of vbfile).
   set (l := map to_lower local). set (d := map to_lower domain).
   pose proof (user_exists_confined db fs vb d l) as [CF UD]. cbv zeta in CF, UD.
@@ -786,4 +786,58 @@ Proof.
   - reflexivity.
   - reflexivity.
   - reflexivity.
+Qed.
+
+(** * Address literals *)
+Theorem literal_reply_sound localip liphost db fs vb local iptext :
+  let l := map to_lower local in
+  domain_found db liphost ->
+  match fst (addrparse_literal localip liphost db fs vb local iptext) with
+  | RAccept => literal_is_local localip (map to_lower iptext) = true /\ mailbox fs vb l
+  | RNoUser text => (literal_is_local localip (map to_lower iptext) = false \/ ~ mailbox fs vb l) /\ exists t, text = REPLY_550 ++ t
+  | RError e => 0 < e /\ io_error fs vb l
+  end.
+Proof.
+  cbv zeta. intros DF. unfold addrparse_literal.
+  destruct (literal_is_local localip (map to_lower iptext)) eqn:M; cbn [fst].
+  - unfold reply_of.
+    pose proof (user_exists_sound db fs vb _ (map to_lower local) DF) as [A [B C]]. cbv zeta in A, B, C.
+    set (z := rc (user_exists db fs vb liphost (map to_lower local))) in *.
+    destruct (z <? 0) eqn:L.
+    + apply Z.ltb_lt in L. split; [lia|now apply C].
+    + apply Z.ltb_ge in L. destruct (z =? 0) eqn:E.
+      * apply Z.eqb_eq in E. split; [right; now apply B|]. destruct nouser_pre_550 as [t ->].
+        eexists. rewrite <- app_assoc. reflexivity.
+      * apply Z.eqb_neq in E. split; [reflexivity|]. apply A. lia.
+  - split; [now left|]. destruct nouser_pre_550 as [t ->]. eexists. rewrite <- app_assoc. reflexivity.
+Qed.
+
+(** the comparison is equality of the bracketed text (without tag) with the local address *)
+Lemma prefix_rbr : forall rest localip, ~ In RBR rest -> ~ In RBR localip ->
+  firstn (length localip) (rest ++ [RBR]) = localip -> nth (length localip) (rest ++ [RBR]) 0%N = RBR -> rest = localip.
+Proof.
+  induction rest as [|r rest IH]; intros [|a l] NR NL A B; cbn [length firstn app nth] in *.
+  - reflexivity.
+  - injection A as A1 A2. exfalso. apply NL. left. now symmetry.
+  - exfalso. apply NR. now left.
+  - injection A as A1 A2. subst a. f_equal. apply IH; try assumption.
+    + intros H. apply NR. now right.
+    + intros H. apply NL. now right.
+Qed.
+
+Lemma literal_is_local_spec localip ip : ~ In RBR localip -> ~ In RBR ip ->
+  literal_is_local localip ip = true <->
+  (if bytes_eqb (firstn (length VP_IPV6TAG) ip) (map to_lower VP_IPV6TAG) then skipn (length VP_IPV6TAG) ip else ip) = localip.
+Proof.
+  intros NL NI. unfold literal_is_local, literal_text.
+  set (rest := if bytes_eqb (firstn (length VP_IPV6TAG) ip) (map to_lower VP_IPV6TAG) then skipn (length VP_IPV6TAG) ip else ip).
+  assert (NR : ~ In RBR rest).
+  { unfold rest. destruct (bytes_eqb _ _); [|exact NI]. intros H. apply NI. clear -H.
+    revert H. generalize (length VP_IPV6TAG). intros n. revert ip. induction n as [|n IH]; intros ip H; [exact H|].
+    destruct ip as [|b ip]; [exact H|]. right. now apply IH. }
+  clearbody rest. rewrite andb_true_iff, bytes_eqb_eq, N.eqb_eq. split.
+  - intros [A B]. now apply prefix_rbr.
+  - intros <-. split.
+    + rewrite firstn_app, Nat.sub_diag, firstn_all. simpl. now rewrite app_nil_r.
+    + rewrite app_nth2, Nat.sub_diag by lia. reflexivity.
 Qed.
